@@ -707,9 +707,9 @@ func main() {
 		ID: "C30", Model: "C30", Gen: gen, Impl: impl, Oracle: oracle, Serial: true,
 		Cases: func(th bool) int {
 			if th {
-				return 5000
+				return 3000
 			}
-			return 200
+			return 120
 		},
 		Fixed: fixed(),
 	})
